@@ -56,7 +56,7 @@ def result(rc, prog, nontrivial=None, extra_stats=None, distinct_extra=None):
         "probes": dict(rc.probes, **(s.probes if s else {})),
         "worlds": {prog["world"] if prog else "none": 1},
         "clock_jumps": rc.clock.jumps if rc.clock else 0,
-        "sim_time_s": (rc.clock.now - 1.7e9) if rc.clock else 0,
+        "sim_time_s": (rc.clock.covered + float(rc.info.get("virtual_time") or 0.0)) if rc.clock else 0,
     }
     if rc.skipped:
         stats["skipped_runs"] = 1
